@@ -28,7 +28,8 @@ from typing import Dict, List, Optional, Sequence, Set, Tuple
 
 _NON_NONE_BUILTINS = {"int", "float", "str", "bool", "bytes", "list", "dict", "set", "tuple", "frozenset", "len", "repr", "sorted", "Decimal"}
 MAX_REST = 12  # statements (deep) of a continuation that may be duplicated
-MAX_LEAVES = 5
+MAX_LEAVES = 5  # branches a small continuation is copied into (F9)
+MAX_FLAG_LEAVES = 17  # branches a flag-dependent continuation is copied into (F2): a dispatch table has up to 16 rows + default
 
 
 def _blocks_with_owner(fn: ast.AST) -> List[Tuple[List[ast.stmt], ast.AST, str]]:
@@ -222,7 +223,7 @@ def tail_duplicate_flags(fn: ast.AST, noreturn: Set[str]) -> int:
                     continue
                 leaves = _chain_leaves(st)
                 open_leaves = [(o, f) for o, f in leaves if not _ends(getattr(o, f), noreturn)]
-                if not open_leaves or len(open_leaves) > MAX_LEAVES:
+                if not open_leaves or len(open_leaves) > MAX_FLAG_LEAVES:
                     continue
                 hit = None
                 for nm in sorted(flags):
